@@ -83,7 +83,7 @@ var _ = digest.SpecHashSlot // spec functions used by the contracts below
 //@   ghost var cpDb mathint = 0 - 2
 //@   ghost var phase mathint = 0
 //@   requires nonnil: outCli != nil
-//@   modifies heap, curDb, cpDb, phase, replayFailed
+//@   modifies curDb, cpDb, phase, replayFailed
 
 // Garbage collection of stale checkpoints: a deletion request is issued only for an entry that
 // is older than the limit and, when the newest entry must be kept, not for the newest one.
